@@ -54,17 +54,11 @@ def run_kani(workrepo, harnesses, timeout=1800, extra=None, log_path=None, playb
     env['CARGO_NET_OFFLINE'] = 'true'
     env.pop('RUSTFLAGS', None)
     t0 = time.time()
-    try:
-        p = subprocess.run(cmd, cwd=workrepo, env=env, capture_output=True, text=True, timeout=timeout)
-        text = p.stdout + '\n' + p.stderr
-        code = p.returncode
-        status = 'ran'
-    except subprocess.TimeoutExpired as e:
-        text = ((e.stdout or b'').decode('utf-8', 'replace') if isinstance(e.stdout, bytes) else (e.stdout or '')) + \
-               '\nTIMEOUT after %ds' % timeout
-        code = None
-        status = 'timeout'
-        subprocess.run(['pkill', '-x', 'cbmc'], capture_output=True)
+    import sys
+    sys.path.insert(0, os.path.join(VERIF, 'tools'))
+    import common
+    code, text = common.run_group(cmd, cwd=workrepo, env=env, timeout=timeout)
+    status = 'ran' if code is not None else 'timeout'
     wall = time.time() - t0
     if log_path:
         with open(log_path, 'w') as f:
